@@ -417,6 +417,26 @@ impl Prop for C12 {
         for (name, src) in definition_programs() {
             sink.case(|| json!({"kind": "definitions", "name": name, "src": src}));
         }
+        // literals of every length 1..=80: numbers (with and without a sign), hex strings, strings (ASCII and wide
+        // characters), the index and the txid of a utxo reference, identifiers - what an error message or a buffer is
+        // cut to must not depend on where the text happens to end
+        for n in 1..=80usize {
+            let digits = "7".repeat(n);
+            let lits = [
+                ("number", digits.clone()),
+                ("negative-number", format!("-{digits}")),
+                ("hex", format!("0x{}", "ab".repeat(n))),
+                ("odd-hex", format!("0x{}", "a".repeat(n))),
+                ("string", format!("\"{}\"", "x".repeat(n))),
+                ("wide-string", format!("\"{}\"", "é".repeat(n))),
+                ("utxo-index", format!("0xabcdef#{digits}")),
+                ("utxo-txid", format!("0x{}#1", "a".repeat(n))),
+                ("identifier", "k".repeat(n)),
+            ];
+            for (what, lit) in lits {
+                sink.case(|| json!({"kind": format!("literal-length-{what}"), "length": n, "src": format!("party A;\ntx t(x: Int) {{\n    output {{\n        to: A,\n        amount: Ada(1),\n        datum: {lit},\n    }}\n}}\n")}));
+            }
+        }
         // grammar derivations
         match Grammar::load() {
             Err(e) => sink.case(|| json!({"kind": "grammar-load-error", "error": e})),
